@@ -63,3 +63,27 @@ def builder_cases():
                 "const A: [u32; %d] = f(); format!(\"{:?}\", A)" % (n, n, n))
         out.append((body, str([3 * i for i in range(n)]), {"m": "ArrayBuild", "mac": "ArrayBuilder(const fn)", "n": n}))
     return out
+
+
+def byval_ledger_cases(desc):
+    """C15: map_! / from_fn_! with drop-ledger elements; the per-id drop counts after the run (and after the caller
+    dropped whatever was returned) are compared with the ledger of ArrayBuild.tla.  Ids: inputs 1..n in array order,
+    outputs n+1.. in the order the closure produced them (from_fn_!: outputs 1..)."""
+    n, ex, pos, pushed = desc["n"], desc["exit"], desc["pos"], desc["pushed"]
+    if desc["form"] != "map_byval" or desc["pc"] not in ("finished", "left", "panicked"):
+        return
+    for mac in ("map_!", "from_fn_!"):
+        if mac == "map_!":
+            ecode = "" if ex == "Val" else "if x.id == %d { %s }" % (pos + 1, EXIT_STMT[ex])
+            pre = "let arr: [L; %d] = [%s];" % (n, ", ".join(["L::new()"] * n))
+            call = "konst::array::map_!(arr, |x| { %s let _consumed = x; L::new() })" % ecode
+            exp = list(desc["din"]) + list(desc["dout"])[:pushed]
+        else:
+            ecode = "" if ex == "Val" else "if i == %d { %s }" % (pos, EXIT_STMT[ex])
+            pre = ""
+            call = "konst::array::from_fn_!(|i| { %s L::new() })" % ecode
+            exp = list(desc["dout"])[:pushed]
+        body = ("reset(); fn inner() -> Option<[L; %d]> { %s let out: [L; %d] = %s; Some(out) } "
+                "let r = std::panic::catch_unwind(inner); let ending = match &r { Ok(Some(_)) => \"value\", Ok(None) => \"left\", Err(_) => \"panic\" }; "
+                "drop(r); format!(\"{};{:?}\", ending, counts())" % (n, pre, n, call))
+        yield body, "%s;%s" % (desc["ending"], str(exp)), dict(desc, mac="array::%s (drop ledger)" % mac)
